@@ -42,6 +42,8 @@ type Ptr struct {
 	path []int
 	// fn pointers / unsafe pointer to string data etc.
 	unsafeStr *StrV
+	// symbolic element pointer: path ends in an array element selected by sym (64-bit index term)
+	sym *Term
 }
 
 var NilPtr = &Ptr{}
